@@ -443,6 +443,9 @@ C05Multi == {
   Select(<<F(AKey, "k"), NV>>, ABin("&", ABin("&", ABin(">", AName("n"), AInt(0)), ABin("<", ABin("+", AName("n"), AInt(1)), AInt(9))), ABin("!=", ABin("*", AName("n"), AInt(2)), AInt(4))), <<>>, <<>>, NoLim),
   Select(<<F(AKey, "k"), F(Call1("sum", Call1("strlen", KA)), "s"), F(Call2("group_concat", Call1("upper", KA), AStr(<<44>>)), "g")>>, ABin("!=", KA, AStr(ab)), <<>>, <<1>>, NoLim),
   Select(<<F(AVal, "v"), F(Call1("sum", Call1("strlen", AName("v"))), "s"), F(Call1("count", AInt(1)), "c")>>, ABin("^=", AName("v"), AStr(<<>>)), <<>>, <<1>>, NoLim),
+  \* GROUP BY a name that is defined through another name, under a selective WHERE that uses neither
+  Select(<<F(AKey, "k"), F(Call1("upper", KA), "u"), F(Call1("count", AInt(1)), "c")>>, ABin("!=", AVal, AStr(<<50>>)), <<>>, <<1, 2>>, NoLim),
+  Select(<<F(ACall("substr", <<AKey, AInt(0), AInt(2)>>), "p"), F(Call1("strlen", AName("p")), "l"), F(Call1("count", AInt(1)), "c"), F(Call1("max", Call1("int", AVal)), "m")>>, ABin("!=", AVal, AStr(<<50>>)), <<>>, <<1, 2>>, NoLim),
   \* the name of an aggregate inside another aggregate field: each group its own value, in both modes, several groups per poll
   Select(<<F(ACall("substr", <<AKey, AInt(0), AInt(1)>>), "p"), F(Call1("count", AInt(1)), "c"), F(ABin("+", Call1("sum", Call1("strlen", AKey)), AName("c")), "t")>>, All, <<>>, <<1>>, NoLim),
   Select(<<F(AVal, "v"), F(Call1("count", AInt(1)), "c"), F(ABin("*", Call1("max", Call1("strlen", AKey)), AName("c")), "t"), F(ABin("-", AName("c"), Call1("min", Call1("strlen", AKey))), "u")>>, ABin("!=", AName("v"), AStr(<<120>>)), <<>>, <<1>>, NoLim) }
